@@ -213,6 +213,8 @@ type vEnv struct {
 	db   *DbImpl
 	emp  *vEmpStore
 	dept *vDeptStore
+	// optional child store of emp (harnesses that need one set it)
+	kidStore *vMgrStore
 }
 
 func verifNewEnv(cfg vStoreCfg) *vEnv {
